@@ -492,8 +492,16 @@ impl World {
 
     fn after_op(&mut self, r: usize) {
         if let Some(m) = &self.reps[r].m {
-            if !any_staged(m) {
-                let o = obs_full(m);
+            // the state to which `unstage` must return: taken whenever no REVISION is staged (refresh runs in
+            // that state and moves it); object bodies may be staged without a revision (object created and
+            // removed again) and are discarded by unstage too, so they are not part of it
+            if !m.has_staging() {
+                let mut o = obs_full(m);
+                if let Some(x) = o.as_object_mut() {
+                    if x.contains_key("stage_keys") {
+                        x.insert("stage_keys".into(), json!([]));
+                    }
+                }
                 self.reps[r].clean_obs = Some(o);
             }
         }
